@@ -87,15 +87,18 @@ def replay(pkts, k, start=0):
             pps = i
     return [i for i in (sps, pps) if i is not None]
 
-def gen_case(rng, refs, kinds_pool, max_clients=3, max_pkts=14, allow_big=True, replace_p=0.0):
+def gen_case(rng, refs, kinds_pool, max_clients=3, max_pkts=14, allow_big=True, replace_p=0.0, kinds=None, stop_p=0.35):
     ncl = rng.randint(1, max_clients)
     replaced = rng.random() < replace_p
     if replaced:
         ncl = max(ncl, 2)
-    kinds = [rng.choice(kinds_pool) for _ in range(ncl)]
-    for i, k in enumerate(kinds):   # one multicast member per case: only the first member triggers the proxy's replay
-        if k == MCAST and MCAST in kinds[:i]:
-            kinds[i] = TCP
+    if kinds is None:
+        kinds = [rng.choice(kinds_pool) for _ in range(ncl)]
+        for i, k in enumerate(kinds):   # one multicast member per case here; several of them: gen_mcast_case
+            if k == MCAST and MCAST in kinds[:i]:
+                kinds[i] = TCP
+    else:
+        kinds, ncl, replaced = list(kinds), len(kinds), False
     big_ok = allow_big and UDP not in kinds and MCAST not in kinds and rng.random() < 0.3
     pkts = gen_packets(rng, rng.randint(4, max_pkts), big_ok)
     n = len(pkts)
@@ -108,7 +111,7 @@ def gen_case(rng, refs, kinds_pool, max_clients=3, max_pkts=14, allow_big=True, 
         attach[1:] = [max(a, rep) for a in attach[1:]]
     stops = []
     for i, k in enumerate(kinds):
-        p = 0.8 if (replaced and i == 0) else 0.35
+        p = 0.8 if (replaced and i == 0) else stop_p
         if k != HTTPFLV and rng.random() < p:
             lo = max(attach[i], rep) if (replaced and i == 0) else attach[i]
             stops.append([i, rng.randint(lo, n), rng.choice([0, 1])])
@@ -118,6 +121,16 @@ def gen_case(rng, refs, kinds_pool, max_clients=3, max_pkts=14, allow_big=True, 
     if replaced:
         marks.append((rep, 1, 4, 0, 0))
     marks.sort()
+    # multicast players share the stream's one proxy: it runs while at least one of them is a member
+    mcast_running, members = {}, set()
+    for at, _, what, i, mode in marks:
+        if kinds[i] != MCAST or what == 4:
+            continue
+        if what == 1:
+            mcast_running[i] = len(members) > 0
+            members.add(i)
+        elif what == 2:
+            members.discard(i)
     events, pos = [], 0
     for at, _, what, i, mode in marks:
         if at > pos:
@@ -139,9 +152,22 @@ def gen_case(rng, refs, kinds_pool, max_clients=3, max_pkts=14, allow_big=True, 
                 end = min(end, rep)      # the old stream has lost its publisher
             else:
                 start = rep              # the new stream's cache starts empty
-        delivered = replay(pkts, attach[i], start) + list(range(attach[i], max(attach[i], end)))
+        rep_part = replay(pkts, attach[i], start)
+        if k == MCAST and mcast_running[i]:
+            rep_part = []        # the proxy replays to the group when it starts: a further member gets the live packets only
+        delivered = rep_part + list(range(attach[i], max(attach[i], end)))
         clients.append([k, gen_chmap(rng, k), delivered])
     return [refs, [[p[0], p[1]] for p in pkts], clients, events, rng.choice([1, 1, 2, 3])]
+
+
+def gen_mcast_case(rng, refs, max_pkts=14):
+    """2-3 multicast players of one stream (plus, half of the time, a viewer of another transport) joining and
+    leaving in every order while packets are published: every player must receive exactly the packets of its own
+    interval, whoever else joins or leaves (the player that started the proxy leaving first in particular)"""
+    kinds = [MCAST] * rng.choice([2, 2, 3])
+    if rng.random() < 0.5:
+        kinds.insert(rng.randrange(len(kinds) + 1), rng.choice([TCP, UDP, WSRTSP, WSP]))
+    return gen_case(rng, refs, None, max_pkts=max_pkts, allow_big=False, kinds=kinds, stop_p=0.75)
 
 
 def gen_cycle_case(rng, refs, kinds, max_pkts=14, last_stops=None, how=None):
